@@ -130,6 +130,7 @@ type Unit struct {
 	guardedTerm   map[string]guardedVal
 	epochAlloc    map[int]Term
 	paramAlias    map[string]string
+	closureTerms  map[string]*closureVal
 	implOf        string
 	coverStatus   string
 }
